@@ -145,7 +145,8 @@ for every tree `compile dev root ≠ .error (.ub .codeOverflow)` (and `≠ .ub .
    move back (`AbsorbPrevOpcode`) never takes anything off: the counting pass reports the *gross* number of bytes it
    wrote or skipped, never less than its net position.
 
-*Missing:* the simulation between the two passes — that from related states both managers take the same peephole
+*Superseded by `C01_code_fits` below (the simulation is proved there); kept as the statement of the managers' byte
+accounting.  What was missing then:* the simulation between the two passes — that from related states both managers take the same peephole
 decisions (they read the same previous-opcode window; `EvalPrevValue` reads the same bytes from the 32-byte ring as
 from the buffer) except for the `LOAD_x_VAR → LOAD_STORE_x_VAR` fusion, where both branches account for 9 bytes, so
 that `gross(program pass) = progLength(counting pass)` and hence `pos ≤ progLength` at every write.  This is
@@ -185,33 +186,40 @@ theorem C01_code_fits_partial (s : St) (bs : List Nat) (k : Nat) :
     · unfold St.moveFwd; simp [hc]
     · unfold St.moveBack; simp [hc]
 
-/-- **The code fits, for the class `Node.plain`** (second partial result towards `C01_code_fits`).  For **every** tree of
-the decidable class `Node.plain` — everything except the following: a unary minus (`.f1 OP_UN_MINUS x`) whose operand `x`
-is neither an integer / float literal (`Node.isLit`) nor of a kind whose emission ends in an opcode without
-operand-literal (`Node.endsNL`: field reads, binary and other unary operators with operator opcodes, array access,
-commands with a result, strings, `NIL`, `NULL`, vectors, listeners, constant arrays, `!`, `&&`, `||`) — in practice a
-minus applied to another minus (`-(-5)`), or to a statement-like node.  (The constant folding reads code bytes back
-through the 32-byte ring; a literal just emitted is read back by either manager as written: `Emit/Bytes.lean`; after an
-`endsNL` operand nothing is read: `Emit/WinOk.lean`, `Emit/TopNL.lean`; `Emit/SimNeg.lean`.)  In the class: labels with parameters, assignments, reads of variables (the `LOAD_x_VAR → LOAD_STORE_x_VAR` fusion
-included), `if`, `if/else`, `while`, `for`, `do`, `break`, `continue`, `switch` with its case labels, `try` / `catch`, `&&`,
-`||`, `!`, all binary and the other unary operators, literals of every width, strings, vectors, arrays, constant arrays,
-built-in getters, script and method commands with any number of arguments; listener bytes as the parser produces them —
-and both developer modes: a whole compile never writes past the buffer of `progLength` bytes that `Preallocate` made from
-the counting pass's result (`Ub.codeOverflow` is never the outcome; hook H3 kind 1).
+/-- **The code written by the program pass fits the length computed by the counting pass.**  For every parse tree of the
+shape the parser produces (`Node.plain`, decidable, evaluated by the driver on every dumped tree — the check demands it of
+each) and both developer modes, a whole compile never writes past the buffer of `progLength` bytes that `Preallocate` made
+from the counting pass's result: `Ub.codeOverflow` is never the outcome (`WriteOpcodeValue`'s assert-only bound, hook H3
+kind 1) — not in the counting pass (it has no buffer), not in `Preallocate`, not in the program pass.
 
-The proof is the simulation `C01_code_fits_partial` lacked: a coupling `Rel` of a counting state and a program state
-(same decisions readable from the previous-opcode windows, compared by depth so that the fusion's one-slot shift does
-not matter: `Emit/Window.lean`; `progLength` of the one = gross bytes of the other; code position ≤ gross bytes; equal
-fix-up counters and flags), kept by every primitive in lock-step (`Emit/Sim.lean`), by the fusion site whichever branch
-each pass takes (`Emit/Fuse.lean`), by the state scripts and counting sub-emitters of `try` / `switch`
-(`Emit/SimNest.lean`) and by every constructor of the class (`Emit/SimEmit*.lean`); monotonicity of `progLength`
-(`Emit/Mono.lean`) and "a counting emitter never reports a code overflow" (`Emit/NoCO.lean`) hold for all trees.
-*Still missing for the full statement:* a minus on an operand that itself ends in a literal (nested minus): the
-agreement of the bytes read back has to be carried through the operand's emission.  About 3 % of the generated trees;
-the check counts them and demands the per-tree certificate of each. -/
-theorem C01_code_fits_partial2 (dev : Bool) (root : Node) (hpl : root.plain = true) :
+`Node.plain` asks two things of a tree, both true of everything the grammar builds: the listener byte of a field on a
+listener is one of the seven listeners (`≤ 6`), and the operand of a unary minus is an expression — a literal, or a node of
+a kind whose emission ends in an opcode without operand-literal (`Node.evOk`: fields, operators with operator opcodes,
+array access, commands with a result, strings, `NIL`, `NULL`, vectors, listeners, constant arrays, `!`, `&&`, `||`), or again a
+unary minus on such an operand.  Everything else is unrestricted: labels with parameters, assignments, reads of variables
+(the `LOAD_x_VAR → LOAD_STORE_x_VAR` fusion included), `if`, `if/else`, `while`, `for`, `do`, `break`, `continue`, `switch`,
+`try` / `catch`, all operators, literals of every width, negative literals and nested minus (constant folding through
+`EvalPrevValue`), commands with any number of arguments.  Outside are only trees no source text yields (a minus applied to
+a statement, listener byte 7 …): for arbitrary opcode bytes in the tree the statement is not expected to hold.
+
+The proof is a simulation of the two passes: a coupling `Rel` of a counting state and a program state (the decisions
+readable from the previous-opcode windows, compared by depth so that the fusion's one-slot shift does not matter:
+`Emit/Window.lean`; `progLength` of the one = gross bytes of the other; code position ≤ gross bytes; equal fix-up counters
+and flags; the ring and the buffer in shape), kept by every primitive in lock-step (`Emit/Sim.lean`), by the fusion site
+whichever branch each pass takes (`Emit/Fuse.lean`), by the state scripts and counting sub-emitters of `try` / `switch`
+(`Emit/SimNest.lean`), by unary minus — either manager reads back the literal it has just written (`Emit/Bytes.lean`),
+reads nothing after an operand that ends in a non-literal opcode (`Emit/WinOk.lean`, `Emit/TopNL.lean`), and the agreement
+of what `EvalPrevValue` reads is carried through nested minuses (`MSP.ev`, `Emit/SimNeg.lean`) — and by every constructor
+(`Emit/SimEmit*.lean`); `progLength` is monotone (`Emit/Mono.lean`) and a counting emitter never reports a code overflow
+(`Emit/NoCO.lean`), for all trees. -/
+theorem C01_code_fits (dev : Bool) (root : Node) (hpl : root.plain = true) :
     compile dev root ≠ .error (.ub .codeOverflow) :=
   plain_compile_fits dev root hpl
+
+/-- the name under which the statement was registered while its class was still growing -/
+theorem C01_code_fits_partial2 (dev : Bool) (root : Node) (hpl : root.plain = true) :
+    compile dev root ≠ .error (.ub .codeOverflow) :=
+  C01_code_fits dev root hpl
 
 set_option maxRecDepth 100000 in
 /-- a realistic program of the class:
@@ -222,10 +230,11 @@ example : (Node.list (.cons (.assign (.field 1 1 0 0 (.listener 2)) (.int 0))
         (.cons (.cmd 3 true (.cons (.str 4) (.cons (.int 7) .nil)))
           (.cons (.assign (.field 1 1 0 0 (.listener 2)) (.int 1)) .nil)))) .none) .nil))).plain = true := by decide
 
-/-- so are `-local.x` and `-(local.a + 1)`; `-(-5)` is not -/
+/-- so are `-local.x`, `-(local.a + 1)` and `-(-5)`; a minus on a statement-like node is not -/
 example : (Node.f1 Gen.EmitConsts.OP_UN_MINUS (.field 1 1 0 0 (.listener 2))).plain = true
     ∧ (Node.f1 Gen.EmitConsts.OP_UN_MINUS (.f2 Gen.EmitConsts.OP_BIN_PLUS (.field 1 1 0 0 (.listener 2)) (.int 1))).plain = true
-    ∧ (Node.f1 Gen.EmitConsts.OP_UN_MINUS (.f1 Gen.EmitConsts.OP_UN_MINUS (.int 5))).plain = false := by decide
+    ∧ (Node.f1 Gen.EmitConsts.OP_UN_MINUS (.f1 Gen.EmitConsts.OP_UN_MINUS (.int 5))).plain = true
+    ∧ (Node.f1 Gen.EmitConsts.OP_UN_MINUS .brk).plain = false := by decide
 
 /-- negative literals are in the class: `local.a = -5`, `local.b = -1.5` -/
 example : (Node.list (.cons (.assign (.field 1 1 0 0 (.listener 2)) (.f1 Gen.EmitConsts.OP_UN_MINUS (.int 5)))
